@@ -8,7 +8,7 @@ from vf import skel as _sk
 from checks.C18 import total_ok, mut_ok, ALPH, SCAFFOLDS, PROGRAMS
 '''
 
-ALPH = "()[]{}\"\;#'`~@^:.,| \n\ta1_-*!éfbr /=<x0N"
+ALPH = "()[]{}\"\\;#'`~@^:.,| \n\ta1_-*!éfbr /=<x0N"
 
 SCAFFOLDS = ["{h}", "({h})", "[{h}]", "{{{h}}}", "#{{{h}}}", "#({h})", "\"{h}\"", "f\"{h}\"", "f\"{{{h}}}\"", "f\"{{x {h}}}\"", "f\"{{x :{h}}}\"", "#[[{h}]]", "#[a[{h}]a]",
              "#[f[{h}]f]", "'{h}", "`{h}", "~{h}", "~@{h}", "#*{h}", "#**{h}", "#^{h} x", "#^ x {h}", "#_{h} y", ";{h}\nx", "(a {h} b)", "#{h}", ":{h}", "a.{h}", ".{h}", "1{h}", "b\"{h}\"",
